@@ -27,19 +27,40 @@ Driver handlers for C16.
 `MOVF checks=0|1 init=<n|none|g> add=<v>`   one `increment_counter("c", v)` at the `u64` boundary;
    answer: `call=ok|PANIC snap=<…>`
 `SMOKE`   answer: `ok` (every public call returns when made on one thread; oracle-only)
-`LOCKSITES`   answer: `sites=<method:locks,…> uncovered=0` (source scan of src/metrics.rs vs the model's table)
+`LOCKSITES`   answer: `sites=<method:locks,…> uncovered=0` (guard acquisitions COUNTED by the hook while each public
+   method runs once, vs the model's table; `uncovered` = acquisitions without a yield point + unrecognised lock
+   expressions in src/metrics.rs)
+`MJSON sum0=<hex16> ops=<op;op;…|->`   calls made one after the other on a fresh collector, then the export is read
+   ops: `rc:<name>:<n>` register counter, `rg:<name>:<hex16>:<desc>` gauge, `rh:<name>:<hex16.hex16…|_>:<desc>`
+        histogram, `ru:<name>:<valtok>:<desc>` user metric, `s:<name>:<n>` set, `i:<name>:<n>` increment, `st`, `en`;
+        `<name>` = hex of the UTF-8 bytes (`_` = the empty name), `<desc>` = `-` (None) or `d<hex>`,
+        `<hex16>` = the bits of an `f64`, `<valtok>` = canonical rendering of a JSON value (opaque to the model)
+   answer: `snap=<name>=<valtok>,… json=<name>=<valtok>~<desc>,… file=<as json>` (sorted; the execution-time
+        member's value is `T`; `file` = `save_to_file` parsed back)
+`MHELD which=start|end mode=<seq|par:N>`   answer: `el=T|F jt=T|F res= <r>` (a run whose stamp call met a held pipeline lock)
+`MHELDC init=<…> call=<op>`   answer: `snap=… el=T|F` (one call made while another thread held the collector's mutex)
+`MCONTEND nodes=<n> observers=<k>`   answer: `missing=<runs without both stamps> wrong=<runs with another result>`
+`FIRSTINC a=<x> b=<y>`   answer: `lost=<n>` (fresh collectors on which two racing first increments did not add up)
+`MMID mid=<ev,…|-> mode=… canon=… src … ; …`  one run with a collector attached, during which (inside the pipeline's
+   closure) the listed events happen: an op of the `METRICS` grammar on the USER's handle, or `take`
+   (`Pipeline::take_metrics`). answer: `att=T|F el=T|F start=T|F snap=… json=… res= <r>` (the user's handle afterwards)
 -/
 namespace IB.D16
 open IB IB.Wire IB.Metrics
 
+/-- `GaugeMetric::new(k, n as f64)` for a small integer `n` -/
+def gaugeOfNat (n : Nat) : MetricVal := .other (.gauge (bitsOfF64 (Float.ofNat n)) none)
+
 def val? (s : String) : Option MetricVal :=
   if s.startsWith "c" then (parseNat? (s.drop 1).toString).map MetricVal.counter
-  else if s.startsWith "g" then (parseNat? (s.drop 1).toString).map MetricVal.other
+  else if s.startsWith "g" then (parseNat? (s.drop 1).toString).map gaugeOfNat
   else none
 
+/-- the `METRICS` rendering: a counter `c<n>`, a gauge `g<value as u64>`, anything else `?` -/
 def valStr : MetricVal → String
   | .counter n => "c" ++ toString n
-  | .other t => "g" ++ toString t
+  | .other (.gauge b _) => "g" ++ toString (f64OfBits b).toUInt64.toNat
+  | .other _ => "?"
 
 def okName (s : String) : Bool := !s.isEmpty && s.toList.all (fun ch => ch.isAlphanum || ch == '_')
 
@@ -55,7 +76,7 @@ def op? (s : String) : Option Op :=
   | ["i", k, n] => if okName k then (parseNat? n).map (Op.inc k) else none
   | ["s", k, n] => if okName k then (parseNat? n).map (Op.set k) else none
   | ["rc", k, n] => if okName k then (parseNat? n).map (fun n => Op.register k (.counter n)) else none
-  | ["rg", k, n] => if okName k then (parseNat? n).map (fun n => Op.register k (.other n)) else none
+  | ["rg", k, n] => if okName k then (parseNat? n).map (fun n => Op.register k (gaugeOfNat n)) else none
   | ["st"] => some .recordStart
   | ["en"] => some .recordEnd
   | ["el"] => some .readElapsed
@@ -233,7 +254,7 @@ def handleMpoison (args : List String) : String :=
           if how == "overflow" then
             let c := setCounter "c" (u64Bound - 1) Collector.empty
             some ((incAtomic64 (ck == "1") "c" 1 c).getD c)
-          else if how == "usermetric" then some (register "boom" (.other 0) Collector.empty)
+          else if how == "usermetric" then some (register "boom" (.other (.user "n" none)) Collector.empty)
           else if how == "none" then some (setCounter "c" 1 Collector.empty)
           else none
         match coll with
@@ -253,7 +274,7 @@ def handleMovf (args : List String) : String :=
     if args.length != 3 || !(ck == "0" || ck == "1") then "BAD-OP" else
     let c0 : Option Collector :=
       if ini == "none" then some Collector.empty
-      else if ini == "g" then some (register "c" (.other 1) Collector.empty)
+      else if ini == "g" then some (register "c" (gaugeOfNat 1) Collector.empty)
       else (parseNat? ini).map (fun n => setCounter "c" n Collector.empty)
     match c0, parseNat? add with
     | some c, some v =>
@@ -263,6 +284,201 @@ def handleMovf (args : List String) : String :=
       | none => s!"call=PANIC snap={snapStr c}"
     | _, _ => "BAD-OP"
   | _, _, _ => "BAD-OP"
+
+/-! ### `MJSON`: the export over the whole value space -/
+
+/-- a name travels as the hex of its UTF-8 bytes; the model keeps it as the string of those BYTES (one
+    `Char` per byte), so that name equality is byte equality, as for a Rust `String` -/
+def name? (h : String) : Option String :=
+  if h == "_" then some "" else
+  if h.isEmpty then none else (hexToBytes? h.toList).map (fun bs => String.ofList (bs.map Char.ofNat))
+
+def nameHex (s : String) : String :=
+  if s.isEmpty then "_" else bytesToHex (s.toList.map (·.toNat))
+
+def hexNat? (h : String) : Option Nat :=
+  if h.isEmpty then none else
+  h.toList.foldlM (fun acc ch => (hexDigit? ch).map (fun d => acc * 16 + d)) 0
+
+def bits? (h : String) : Option Nat := if h.length == 16 then hexNat? h else none
+
+def hex16 (n : Nat) : String :=
+  String.ofList ((List.range 16).reverse.map (fun i => nibble ((n >>> (4 * i)) % 16)))
+
+def desc? (s : String) : Option (Option String) :=
+  if s == "-" then some none
+  else if s.startsWith "d" then
+    let h := (s.drop 1).toString
+    if h.isEmpty then some (some "") else (name? h).map some
+  else none
+
+def descStr : Option String → String
+  | none => "-"
+  | some d => "d" ++ (if d.isEmpty then "" else nameHex d)
+
+def numTok : JNum → String
+  | .uint n => "u" ++ toString n
+  | .float b => "f" ++ hex16 b
+  | .null => "n"
+
+def valTok : JVal → String
+  | .num x => numTok x
+  | .obj fields =>
+    "{" ++ "|".intercalate (sortStrs (fields.map (fun kv => nameHex kv.1 ++ ">" ++ numTok kv.2))) ++ "}"
+  | .opaque t => t
+
+def okTok (s : String) : Bool :=
+  !s.isEmpty && s.toList.all (fun ch => ch.isAlphanum || ch == '[' || ch == ']' || ch == '{' || ch == '}' ||
+    ch == '|' || ch == '>' || ch == '-' || ch == '_')
+
+inductive JOp
+  | reg (k : String) (m : MetricVal)
+  | set (k : String) (n : Nat)
+  | inc (k : String) (n : Nat)
+  | st
+  | en
+
+def jop? (s : String) : Option JOp :=
+  match s.splitOn ":" with
+  | ["rc", k, n] => do
+      let k ← name? k
+      let n ← parseNat? n
+      if n < u64Bound then pure (.reg k (.counter n)) else none
+  | ["rg", k, b, d] => do pure (.reg (← name? k) (.other (.gauge (← bits? b) (← desc? d))))
+  | ["rh", k, vs, d] => do
+      let vals ← if vs == "_" then some [] else (vs.splitOn ".").mapM bits?
+      pure (.reg (← name? k) (.other (.hist vals (← desc? d))))
+  | ["ru", k, v, d] => if okTok v then do pure (.reg (← name? k) (.other (.user v (← desc? d)))) else none
+  | ["s", k, n] => do
+      let k ← name? k
+      let n ← parseNat? n
+      if n < u64Bound then pure (.set k n) else none
+  | ["i", k, n] => do
+      let k ← name? k
+      let n ← parseNat? n
+      if n < u64Bound then pure (.inc k n) else none
+  | ["st"] => some .st
+  | ["en"] => some .en
+  | _ => none
+
+/-- one call at model time `now`; `none` = the `u64` addition of `increment_counter` overflowed (never generated) -/
+def applyJOp (now : Nat) (c : Collector) : JOp → Option Collector
+  | .reg k m => some (register k m c)
+  | .set k n => some (setCounter k n c)
+  | .inc k n => incAtomic64 true k n c
+  | .st => some (recordStart now c)
+  | .en => some (recordEnd now c)
+
+def snapFull (sum0 : Nat) (c : Collector) : String :=
+  joinOr "," (sortStrs ((snapshot c).map (fun kv => nameHex kv.1 ++ "=" ++ valTok (kv.2.value sum0))))
+
+def entryFull (sum0 : Nat) : JsonEntry → String
+  | .execTime _ => "T~" ++ descStr (JsonEntry.execTime 0).description
+  | e => valTok (e.value sum0) ++ "~" ++ descStr e.description
+
+def jsonFull (sum0 : Nat) (doc : List (String × JsonEntry)) : String :=
+  joinOr "," (sortStrs (doc.map (fun kv => nameHex kv.1 ++ "=" ++ entryFull sum0 kv.2)))
+
+def handleMjson (args : List String) : String :=
+  match kv? "sum0" args, kv? "ops" args with
+  | some s0, some ops =>
+    if args.length != 2 then "BAD-OP" else
+    match bits? s0, (if ops == "-" then some [] else (ops.splitOn ";").mapM jop?) with
+    | some sum0, some jops =>
+      let rec go (now : Nat) (c : Collector) : List JOp → Option Collector
+        | [] => some c
+        | o :: r => match applyJOp now c o with
+          | some c' => go (now + 1) c' r
+          | none => none
+      match go 1 Collector.empty jops with
+      | some c =>
+        -- `save_to_file`: the serialiser is the identity on the model's document (what a parser reads back)
+        s!"snap={snapFull sum0 c} json={jsonFull sum0 (toJson c)} file={jsonFull sum0 (saveToFile id c)}"
+      | none => "BAD-OP"
+    | _, _ => "BAD-OP"
+  | _, _ => "BAD-OP"
+
+/-! ### `MMID`: things happening to the user's handle / the slot while the engine runs -/
+
+def mid? (s : String) : Option (List MidEvent) :=
+  if s == "-" then some [] else
+  (s.splitOn ",").mapM (fun e => if e == "take" then some MidEvent.take else (op? e).map MidEvent.userOp)
+
+def handleMmid (args : List String) : String :=
+  match args with
+  | a0 :: rest =>
+    match kv? "mid" [a0], PipeParse.parseReq rest with
+    | some md, some q =>
+      match mid? md, mode? q.mode with
+      | some mid, some m =>
+        let p : SharedPipe Graph := ⟨⟨q.src, q.steps⟩, true, Collector.empty⟩
+        let r := runCollectShared (planOf true) (execMode m true) 1 2 mid p
+        let c := r.2.cell
+        s!"att={boolStr r.2.attached} el={boolStr (elapsed c).isSome} start={boolStr c.start.isSome} snap={snapStr c} json={jsonStr c} {resStr [renderRun q.canon r.1]}"
+      | _, _ => "BAD-OP"
+    | _, _ => "BAD-OP"
+  | _ => "BAD-OP"
+
+/-- `FIRSTINC a=<x> b=<y>`: two threads that both start `increment_counter` on an ABSENT name; by
+    `inc_atomic_sum` every schedule ends at `x + y`. The model runs both orders and reports how many lose. -/
+def handleFirstInc (args : List String) : String :=
+  match kv? "a" args, kv? "b" args with
+  | some a, some b =>
+    if args.length != 2 then "BAD-OP" else
+    match parseNat? a, parseNat? b with
+    | some a, some b =>
+      let s0 := Sys.init Collector.empty [[Op.inc "k" a], [Op.inc "k" b]]
+      let lost := ([[0, 1], [1, 0]].filter (fun sched => counterVal "k" (run currentImpl sched s0).c != a + b)).length
+      s!"lost={lost}"
+    | _, _ => "BAD-OP"
+  | _, _ => "BAD-OP"
+
+/-- `MHELD which=start|end mode=…`: `record_metrics_start` / `_end` WAIT for the pipeline lock (`lock()`), so a
+    lock held by another thread only delays the stamp: the modelled run has both (`elapsed_after_success`). -/
+def handleMheld (args : List String) : String :=
+  match kv? "which" args, kv? "mode" args with
+  | some w, some md =>
+    if args.length != 2 || !(w == "start" || w == "end") then "BAD-OP" else
+    match mode? md with
+    | some m =>
+      let g : Graph := ⟨[.int 5], [.map (.add 1)]⟩
+      let r := runCollectProg m true true 1 2 ((⟨g, none⟩ : Pipe Graph).setMetrics Collector.empty)
+      match r.2.getMetrics with
+      | some c =>
+        s!"el={boolStr (elapsed c).isSome} jt={boolStr (getJ execKey (toJson c)).isSome} {resStr [renderRun "seq" r.1]}"
+      | none => "el=F jt=F res= -"
+    | none => "BAD-OP"
+  | _, _ => "BAD-OP"
+
+/-- `MHELDC init=… call=<op>`: a call that finds the collector's mutex held WAITS; its effect is the sequential one -/
+def handleMheldc (args : List String) : String :=
+  match kv? "init" args, kv? "call" args with
+  | some i, some o =>
+    if args.length != 2 then "BAD-OP" else
+    match init? i, op? o with
+    | some ini, some op =>
+      -- the harness puts a `record_start` before a tested `record_end` and a `record_end` behind a tested `record_start`
+      let c0 := if op == Op.recordEnd then recordStart 0 (mkCollector ini) else mkCollector ini
+      let c1 := runCall currentImpl 1 op c0
+      let c := if op == Op.recordStart then recordEnd 2 c1 else c1
+      s!"snap={snapStr c} el={boolStr (elapsed c).isSome}"
+    | _, _ => "BAD-OP"
+  | _, _ => "BAD-OP"
+
+/-- `MCONTEND nodes=<n> observers=<k>`: whatever other threads do to the pipeline GRAPH meanwhile, every run with
+    a fresh collector attached ends with both stamps; the model runs one such run and counts what is missing -/
+def handleMcontend (args : List String) : String :=
+  match kv? "nodes" args, kv? "observers" args with
+  | some n, some k =>
+    if args.length != 2 || (parseNat? n).isNone || (parseNat? k).isNone then "BAD-OP" else
+    let g : Graph := ⟨[.int 1, .int 2, .int 3, .int 4], [.map (.mul 10)]⟩
+    let r := runCollectProg .seq true true 1 2 ((⟨g, none⟩ : Pipe Graph).setMetrics Collector.empty)
+    let missing := match r.2.getMetrics with
+      | some c => if (elapsed c).isSome && (getJ execKey (toJson c)).isSome then 0 else 1
+      | none => 1
+    let wrong := if renderRun "seq" r.1 == "OK L4 I10 I20 I30 I40" then 0 else 1
+    s!"missing={missing} wrong={wrong}"
+  | _, _ => "BAD-OP"
 
 /-- `LOCKSITES` ↦ the model's table of lock acquisitions per method, all covered by a yield point -/
 def handleLockSites (args : List String) : String :=
@@ -275,6 +491,8 @@ def handleSmoke (args : List String) : String := if args.isEmpty then "ok" else 
 
 def handlers : List (String × (List String → String)) :=
   [("LOCKSITES", handleLockSites), ("MPOISON", handleMpoison), ("METRICS", handleMetrics), ("STRESS", handleStress),
-   ("MRUN", handleMrun), ("MSLEEP", handleMsleep), ("MOVF", handleMovf), ("SMOKE", handleSmoke)]
+   ("MRUN", handleMrun), ("MSLEEP", handleMsleep), ("MOVF", handleMovf), ("SMOKE", handleSmoke),
+   ("MJSON", handleMjson), ("MMID", handleMmid), ("FIRSTINC", handleFirstInc),
+   ("MHELD", handleMheld), ("MCONTEND", handleMcontend), ("MHELDC", handleMheldc)]
 
 end IB.D16
